@@ -78,6 +78,9 @@ def match(pid, fail):
             # isar constant values reach the generated Python module as raw text and are
             # evaluated there with Python's '/' (true division) and shift precedence
             return "isar-raw-expression-text"
+    if pid == "C13" and fail.get("exception") == "ValueError" and "Duplicate Enum value in" in what \
+            and (fail.get("case") or {}).get("fe") == "isar":
+        return "isar-duplicate-enum-value-valueerror"
     feats = set(fail.get("features") or ())
     for f in sorted(EXPLAINS.get((pid, fail.get("check")), set()) & feats):
         return f
